@@ -155,6 +155,7 @@ impl FixtureDatabase {
     decreases e.len() - i
 @loopstart 1
     proof { assert(e.skip(i).drop_first() =~= e.skip(i + 1)); assert(e[i] == (stem@, pbv(pth_path))); i = i + 1; }
+    proof { assert(pth_first(sp, cands, e, i - 1) == (match pth_file_root(sp, cands, e[i - 1].0, e[i - 1].1) { Some(p) => Some(p), None => pth_first(sp, cands, e, i) })); }
 @after matches 1
     proof {
         if matches {
@@ -183,6 +184,8 @@ impl FixtureDatabase {
     decreases ls.len() - j
 @loopstart 2
     proof { assert(ls.skip(j).drop_first() =~= ls.skip(j + 1)); assert(line@ == ls[j]); j = j + 1; }
+    let ghost t = trim_v(ls[j - 1]);
+    proof { assert(pth_lines_root(sp, ls, j - 1) == (if !line_skipped(t) && !line_invalid(t) && line_root(sp, t) is Some { line_root(sp, t) } else { pth_lines_root(sp, ls, j) })); }
 @*/
 
 }
